@@ -149,8 +149,10 @@ def check_forest(args):
                             ok = False
                 if not ok:
                     continue
-                for new_tid, new_lid in ((4, None), (4, 9), (old, 9)):
+                for new_tid, new_lid, lin_on in ((4, None, True), (4, 9, True), (old, 9, True), (4, 9, False)):
                     cases += 1
+                    # lineage feature switched off: the walk must leave lineage ids alone (C10)
+                    (ta.activate_features if lin_on else ta.deactivate_features)([lk])
                     lidmap = {x: (1 + (x % 2)) for x in nodes}
                     for x in nodes:
                         g.nodes[x][trk] = tidmap[x]
@@ -164,7 +166,7 @@ def check_forest(args):
                                           new_lineage_id=new_lid, old_lineage_id=lidmap[start])
                     ta._handle_update_track_ids(act)
                     exp_t = {x: (new_tid if (x in below and tidmap[x] == old) else tidmap[x]) for x in nodes}
-                    exp_l = {x: (new_lid if (new_lid is not None and x in below) else lidmap[x]) for x in nodes}
+                    exp_l = {x: (new_lid if (new_lid is not None and lin_on and x in below) else lidmap[x]) for x in nodes}
                     got_t = {x: g.nodes[x][trk] for x in nodes}
                     got_l = {x: g.nodes[x][lk] for x in nodes}
                     bad = None
@@ -181,6 +183,7 @@ def check_forest(args):
                             bad = "track lookup"
                         elif ta.max_tracklet_id != max(maxT0, new_tid):
                             bad = "max track id"
+                    ta.activate_features([lk])
                     if bad:
                         viol.append({"kind": "walk:" + bad, "times": times, "parents": parents, "tids": assign, "start": start,
                                      "new": [new_tid, new_lid], "got_t": got_t, "exp_t": exp_t})
